@@ -135,6 +135,9 @@ func newPointerDecoder(decoder *encoding.DecodeAssembler[Value, any]) encoding.D
 			}
 
 			return encoding.DecodeFunc(func(source Value, target unsafe.Pointer) error {
+				if source == nil {
+					return nil
+				}
 				t := reflect.NewAt(typ.Elem(), target)
 				if t.Elem().IsNil() {
 					zero := reflect.New(t.Type().Elem().Elem())
